@@ -105,15 +105,96 @@ def foerster_rate_matrix(cx, N):
     cx.prove_eq("real", numpy.imag(K), numpy.zeros((N, N), dtype=int))
 
 
+def _foerster_overlap(tt, g_acc, g_don, e_acc, e_don, lam_don):
+    """2 Re int_0^t A_acc(s) conj F_don(s) ds with A(s) = exp(-i e s - g(s)) the absorption and
+    F(s) = exp(-i (e - 2 lam) s - conj g(s)) the (Stokes-shifted) fluorescence response, integrated by
+    the same spline quadrature (stubbed in symbolic mode) the code uses; returns the whole primitive"""
+    import scipy.interpolate as interp
+    prod = numpy.exp(-g_acc - g_don + 1j * ((e_don - e_acc) - 2.0 * lam_don) * tt)
+    splr = interp.UnivariateSpline(tt, numpy.real(prod), s=0).antiderivative()(tt)
+    spli = interp.UnivariateSpline(tt, numpy.imag(prod), s=0).antiderivative()(tt)
+    return 2.0 * numpy.real(splr + 1j * spli)
+
+
+@harness("C06", "foerster_golden_rule",
+         quick=[dict(N=3, td=False), dict(N=3, td=True), dict(N=3, td="class")],
+         thorough=[dict(N=n, td=t) for n in (3, 4) for t in (False, True)] + [dict(N=3, td="class"), dict(N=4, td="class")],
+         functions=[F_FR + ":_reference_implementation", F_FR + ":_fintegral", F_FR + ":FoersterRateMatrix.initialize",
+                    D + "tdfoerstertensor.py:_td_reference_implementation", D + "tdfoerstertensor.py:_td_fintegral"],
+         bound="N<=3 (thorough 4) sites with different line-shape functions and reorganisation energies (symbolic), "
+               "4 time points; the quadrature is the spline stub (uninterpreted, congruent): K[a,b] = J_ab^2 * 2 Re "
+               "int A_a(t) conj F_b(t) dt with the DONOR's (b) Stokes shift 2 lambda_b and the acceptor's (a) "
+               "absorption, at the last time (rate matrix) and at every time (time-dependent rates); 'class': "
+               "FoersterRateMatrix on a real system-bath interaction with a different bath on every site takes "
+               "g_n and lambda_n of the right site",
+         out="the value of the overlap integral; that this form implies detailed balance with respect to "
+             "E_n - lambda_n is the textbook consequence (KMS relation of g), not re-derived by the solver")
+def foerster_golden_rule(cx, N, td):
+    from quantarhei.qm.liouvillespace.rates import foersterrates
+    from quantarhei.qm.liouvillespace import tdfoerstertensor
+    if td == "class":
+        import quantarhei as qr
+        from quantarhei.qm.corfunctions.correlationfunctions import c2g
+        from harness.common import build_aggregate
+        nmol = N - 1
+        reorgs = [20 + 15 * i for i in range(nmol)]
+        agg = build_aggregate(cx, nmol, Nt=4, reorgs=reorgs)
+        sbi = agg.get_SystemBathInteraction()
+        ham = agg.get_Hamiltonian()
+        H = cx.real_symmetric("H", N)
+        for a in range(1, N):       # the electronic ground state is not coupled to the excited band
+            H[0, a] = H[a, 0] = 0 * H[0, a]
+        ham._data = H.copy()
+        with cx.concrete():
+            tt = numpy.array(sbi.TimeAxis.data)
+            gt = [None] + [numpy.array(c2g(sbi.TimeAxis, sbi.CC.get_coft(i, i))) for i in range(nmol)]
+            with qr.energy_units("1/cm"):
+                ll = [0.0] + [float(qr.Manager().convert_energy_2_internal_u(r)) for r in reorgs]
+        K = foersterrates.FoersterRateMatrix(ham, sbi).data
+        for a in range(1, N):
+            for b in range(1, N):
+                if a != b:
+                    ref = H[a, b] ** 2 * _foerster_overlap(tt, gt[a], gt[b], H[a, a], H[b, b], ll[b])[-1]
+                    cx.prove_eq("rate_is_overlap_of_right_sites[%d<-%d]" % (a, b), K[a, b], ref, tol=1e-6)
+        for a in range(N):
+            cx.prove_eq("ground_state_isolated[%d]" % a, [K[0, a], K[a, 0]] if a else [K[0, 0]],
+                        [0, 0] if a else [0], tol=1e-12)
+        return
+    H = cx.real_symmetric("H", N)
+    tt = numpy.arange(4, dtype=float)
+    gt = cx.cplx_array("g", (N, 4))
+    ll = cx.real_array("lam", N)
+    if td:
+        K = tdfoerstertensor._td_reference_implementation(N, 4, H, tt, gt, ll, tdfoerstertensor._td_fintegral)
+    else:
+        K = foersterrates._reference_implementation(N, H, tt, gt, ll)
+    for a in range(N):
+        for b in range(N):
+            if a == b:
+                continue
+            ov = _foerster_overlap(tt, gt[a, :], gt[b, :], H[a, a], H[b, b], ll[b])
+            if td:
+                cx.prove_eq("td_rate_is_donor_shifted_overlap[%d<-%d]" % (a, b), K[:, a, b], H[a, b] ** 2 * ov,
+                            tol=1e-9)
+            else:
+                cx.prove_eq("rate_is_donor_shifted_overlap[%d<-%d]" % (a, b), K[a, b], H[a, b] ** 2 * ov[-1],
+                            tol=1e-9)
+
+
 @harness("C06", "spectral_density",
          quick=[dict(ftype="OverdampedBrownian", Nt=3, grid="dyadic"), dict(ftype="UnderdampedBrownian", Nt=3, grid="dyadic"),
-                dict(ftype="OverdampedBrownian", Nt=3, grid="fft")],
+                dict(ftype="OverdampedBrownian", Nt=3, grid="fft"), dict(ftype="OverdampedBrownian", Nt=2, grid="offset"),
+                dict(ftype="UnderdampedBrownian", Nt=2, grid="offset")],
          thorough=[dict(ftype=f, Nt=n, grid="dyadic") for f in ("OverdampedBrownian", "UnderdampedBrownian")
-                   for n in (3, 5)] + [dict(ftype="OverdampedBrownian", Nt=n, grid="fft") for n in (3, 4, 57)],
+                   for n in (3, 5)] + [dict(ftype="OverdampedBrownian", Nt=n, grid="fft") for n in (3, 4, 57)] +
+                  [dict(ftype=f, Nt=n, grid="offset") for f in ("OverdampedBrownian", "UnderdampedBrownian")
+                   for n in (2, 4)],
          functions=[F_SD + ":SpectralDensity.__init__", F_SD + ":SpectralDensity._make_overdamped_brownian",
                     F_SD + ":SpectralDensity._make_underdamped_brownian",
                     F_SD + ":SpectralDensity.get_FTCorrelationFunction"],
-         bound="symmetric dyadic frequency grid of 2*Nt points (Nt=3, thorough 5); on grids produced by a time axis "
+         bound="symmetric dyadic frequency grid of 2*Nt points (Nt=3, thorough 5) containing the origin, and a "
+               "half-step offset one that misses it (the other branch of get_FTCorrelationFunction); on both also "
+               "C(w) tanh(w/2kT) = (1 + tanh(w/2kT)) J(w); on grids produced by a time axis "
                "(Nt=3, thorough also 4 and 57) only finiteness; reorganisation energy, correlation "
                "time / damping, frequency and temperature symbolic and positive; tanh and exp uninterpreted with "
                "exp(-2x)(1+tanh x) = 1-tanh x instantiated at the grid arguments",
@@ -125,6 +206,9 @@ def spectral_density(cx, ftype, Nt, grid):
         if grid == "dyadic":
             # exactly representable symmetric grid k*h: oddness / KMS symmetry can be stated exactly
             wa = qr.FrequencyAxis(-Nt * 0.0625, 2 * Nt, 0.0625)
+        elif grid == "offset":
+            # symmetric grid (k+1/2)*h that does not contain the origin
+            wa = qr.FrequencyAxis(-(Nt - 0.5) * 0.0625, 2 * Nt, 0.0625)
         else:
             # the grid a time axis produces (floats; symmetric only up to rounding): finiteness only
             wa = qr.TimeAxis(0.0, Nt, 10.0 if Nt < 10 else 1.0).get_FrequencyAxis()
@@ -155,6 +239,21 @@ def spectral_density(cx, ftype, Nt, grid):
         else:
             cx.prove("finite", bool(numpy.all(numpy.isfinite(numpy.asarray(ft.data, dtype=complex)))))
         return
+    if grid == "offset":
+        cx.prove("grid_symmetric", all(abs(float(wax[i]) + float(wax[M - 1 - i])) < 1e-12 for i in range(M)))
+        for i in range(z0, M):
+            cx.prove_eq("odd[%d]" % i, J[M - 1 - i], -J[i], tol=1e-9)
+        ft = sd.get_FTCorrelationFunction(temperature=T)
+        cx.check_div_obligations("finite")
+        C = ft.data
+        for i in range(z0, M):
+            wi = float(wax[i])
+            boltz = numpy.exp(-wi / (kB_int * T))
+            cx.prove_eq("kms[%d]" % i, C[M - 1 - i], boltz * C[i], tol=1e-6)
+        for i in range(M):
+            th = numpy.tanh(wax[i] / (2.0 * kB_int * T))
+            cx.prove_eq("bose_factor[%d]" % i, C[i] * th, (1.0 + th) * J[i], tol=1e-9)
+        return
     cx.prove("grid_symmetric", abs(float(wax[z0])) < 1e-12 and all(
         abs(float(wax[z0 + j]) + float(wax[z0 - j])) < 1e-12 for j in range(1, z0)))
     cx.prove_eq("zero_at_origin", J[z0], 0, tol=1e-12)
@@ -168,6 +267,10 @@ def spectral_density(cx, ftype, Nt, grid):
         wj = float(wax[z0 + j])
         boltz = numpy.exp(-wj / (kB_int * T))
         cx.prove_eq("kms[%d]" % j, C[z0 - j], boltz * C[z0 + j], tol=1e-6)
+    for i in range(M):
+        if i != z0:
+            th = numpy.tanh(wax[i] / (2.0 * kB_int * T))
+            cx.prove_eq("bose_factor[%d]" % i, C[i] * th, (1.0 + th) * J[i], tol=1e-9)
 
 
 @harness("C06", "redfield_tensor_population_rates",
